@@ -532,7 +532,8 @@ pub fn gen_aggregate(rng: &mut Rng, s: &Schema, cfg: &AggCfg) -> Sel {
         } else { cmp };
         sel.having = Some(if !keys.is_empty() && matches!(keys[0], E::Col(_)) && rng.chance(1, 3) {
             let keycond = match &keys[0] { E::Col(n) if n == ck => bin("!=", keys[0].clone(), text("a")), E::Col(n) if n == cg => bin(">=", keys[0].clone(), int(1)), _ => E::Is(true, b(keys[0].clone()), b(E::Null)) };
-            bin(*rng.pick(&["AND", "OR"]), cmp, keycond)
+            // (the key named before or after the aggregates: hidden aggregates are numbered in the order the clause names things)
+            if rng.chance(1, 2) { bin(*rng.pick(&["AND", "OR"]), keycond, cmp) } else { bin(*rng.pick(&["AND", "OR"]), cmp, keycond) }
         } else { cmp });
     }
     if cfg.allow_distinct && rng.chance(1, 4) { sel.distinct = true; }
